@@ -198,6 +198,7 @@ def step (st : St) (toks : List String) : St × String :=
         | .ownPacket => "ownPacket"
         | .otherCommunity => "otherCommunity"
         | .droppedNoTunnelEndpoint => "dropped"
+        | .droppedNestedData => "dropped"
         | .exitSocket => "exitSocket"
         | .droppedZeroDest => "dropped"
       (st, r)
@@ -211,6 +212,7 @@ def step (st : St) (toks : List String) : St × String :=
         | .ownPacket => "ownPacket"
         | .otherCommunity => "otherCommunity"
         | .droppedNoTunnelEndpoint => "dropped"
+        | .droppedNestedData => "dropped"
         | .exitSocket => "exitSocket"
         | .droppedZeroDest => "dropped"
       (st, r)
@@ -224,6 +226,21 @@ def step (st : St) (toks : List String) : St × String :=
       let s := XSock.run (fun h => h + 100) ({ ready := ready } : XSock) (sends ++ drain)
       let lost := (List.range ks.length).filter (fun i => s.out.map Prod.fst |>.count i |> (· != 1))
       (st, s!"out={s.out.length} lost={lost.length}")
+    | _, _ => bad
+  | ["tdeliver", packet, specs] =>
+    -- specs: "[<prefixhex>:<0|1>,...]" = the overlays loaded on the tunnel endpoint with their anonymize flag
+    match ofHex? packet, listItems? specs with
+    | some packet, some items =>
+      let ovs : Option (List (Bytes × Bool)) := items.mapM (fun it =>
+        match splitChar it ':' with
+        | [p, a] => do
+          let pb ← ofHex? p
+          let ab ← bool? a
+          pure (pb, ab)
+        | _ => none)
+      match ovs with
+      | some ovs => (st, showNatList (tunnelDelivery ovs packet))
+      | none => bad
     | _, _ => bad
   | ["dump", a] =>
     match a.toNat? with
